@@ -337,6 +337,7 @@ class Unit:
             "source_changes": changes, "gen_lines": [gen_first, gen_last], "unit_file": unitfile,
             "fn": fn_name, "probes": n_probe,
             "kind": ("fn" if body_at is not None else "fn_decl") if fn_name else "type",
+            "emits_body": body_open_seg(segs) is not None,
         }
         self.items.append(rep)
 
